@@ -1,3 +1,4 @@
 //! Reference models (oracles that are not stream writers).
 
 pub mod idct;
+pub mod compositor;
